@@ -224,6 +224,19 @@ def run(tier, out):
                 live = efx.build(ns, model)
             except Exception:
                 continue
+            if seed % 2 == 0:
+                # several inputs cite the same document at different places: same source name, different links
+                picks = [(n, a) for n in sorted(efx.reachable(model)) for a in model[n]["inp"]
+                         if model[n]["inp"][a][0] != 0 and a not in ("server_utilization_rate", "fraction_of_usage_time")]
+                rng.shuffle(picks)
+                for k, (n, a) in enumerate(picks[:4]):
+                    mv = [model[n]["inp"][a][0] * 1.25, model[n]["inp"][a][1]]      # an assignment of an equal value is skipped
+                    try:
+                        setattr(live[n], a, ns.SourceValue(mv[0] * ns.u(mv[1]), ns.Source(
+                            "Shared report", f"https://example.org/report#section-{k % 3}"), f"{a} of {n}"))
+                    except Exception:   # noqa: the new value does not suit this system
+                        continue
+                    model[n]["inp"][a] = mv
             cur = model
             if seed % 3 == 0:       # after an edit history
                 for _ in range(4):
